@@ -1,4 +1,4 @@
----- MODULE MC ----
+---- MODULE MC_TofuStore ----
 EXTENDS TofuStore
 E(h, fp, ok) == [h |-> h, fp |-> fp, ok |-> ok]
 EntrySets == {<<>>} \cup { <<E(h, f, ok)>> : h \in Hosts, f \in Fps, ok \in BOOLEAN }
